@@ -107,6 +107,14 @@ def do_call(dep, c, cfg):
     if kind == 'Load':
       dep.study = clients.Study.from_resource_name(MAIN)
       return ('ok', dep.study.resource_name)
+    if kind == 'LoadByOwner':
+      dep.study = clients.Study.from_owner_and_id(c.get('owner', 'o0'), c.get('sid', 's0'))
+      return ('ok', dep.study.resource_name)
+    if kind == 'ListStudies':
+      cl = vizier_client.VizierClient(MAIN, 'unused', vizier_client.create_vizier_servicer_or_stub())
+      import json as _json  # pylint: disable=g-import-not-at-top
+      docs = [_json.loads(d) if isinstance(d, str) else dict(d) for d in cl.list_studies()]
+      return ('ok', sorted((d.get('name'), d.get('displayName'), d.get('state')) for d in docs))
     if kind == 'LoadMissing':
       clients.Study.from_resource_name('owners/o0/studies/nope')
       return ('ok', 'loaded-missing')
@@ -118,6 +126,18 @@ def do_call(dep, c, cfg):
       return ('ok', [ntr(t.materialize()) for t in ts])
     if kind == 'ListTrials':
       return ('ok', sorted((ntr(t) for t in st.trials().get()), key=lambda t: t['id']))
+    if kind == 'TrialsFiltered':
+      f = {'completed': vz.TrialFilter(status=[vz.TrialStatus.COMPLETED]),
+           'active': vz.TrialFilter(status=[vz.TrialStatus.ACTIVE]),
+           'min-id': vz.TrialFilter(min_id=c.get('i', 2)),
+           'ids': vz.TrialFilter(ids=[1, c.get('i', 2), 77])}[c.get('filter', 'completed')]
+      return ('ok', sorted(t.id for t in st.trials(f).get()))
+    if kind == 'ProblemStatement':
+      ps = st.materialize_problem_statement()
+      return ('ok', (tuple(sorted(pc.name for pc in ps.search_space.parameters)),
+                     tuple(sorted((m.name, str(m.goal)) for m in ps.metric_information))))
+    if kind == 'OptimalCount':
+      return ('ok', sorted(t.id for t in st.optimal_trials(count=c.get('i', 1)).get()))
     if kind == 'Optimal':
       return ('ok', sorted(t.id for t in st.optimal_trials().get()))
     if kind == 'GetTrial':
@@ -233,7 +253,8 @@ class C08(runner.Check):
     kinds = (['Suggest'] * 6 + ['Complete'] * 6 + ['GetTrial'] * 2 + ['ListTrials', 'Optimal', 'Optimal', 'Parameters',
              'AddTrial', 'AddTrial', 'Request', 'SetState', 'GetState', 'StudyMD', 'GetConfigMD', 'TrialMD', 'TrialMD',
              'AddMeasurement', 'AddMeasurement', 'Stop', 'CheckES', 'DeleteTrial', 'Load', 'LoadMissing',
-             'DeleteStudy', 'Create'])
+             'DeleteStudy', 'Create', 'LoadByOwner', 'LoadByOwner', 'ListStudies', 'TrialsFiltered', 'TrialsFiltered',
+             'ProblemStatement', 'OptimalCount'])
     if rng.random() < 0.04:
       # rare: one trial with a very long learning curve, then error paths on it
       ops += [['Suggest', {'n': 1, 'worker': 0}], ['LongCurve', {'trial': {'pref': 'active', 'i': 0}, 'n': 260}],
@@ -272,6 +293,12 @@ class C08(runner.Check):
         a = {'x': rng.randrange(40)}
       elif k == 'SetState':
         a = {'state': rng.choice(['ACTIVE', 'ABORTED', 'COMPLETED'])}
+      elif k == 'LoadByOwner':
+        a = {'owner': rng.choice(['o0', 'o0', 'o0', 'nobody']), 'sid': rng.choice(['s0', 's0', 's0', 'nope'])}
+      elif k == 'TrialsFiltered':
+        a = {'filter': rng.choice(['completed', 'active', 'min-id', 'ids']), 'i': rng.randrange(1, 6)}
+      elif k == 'OptimalCount':
+        a = {'i': rng.randrange(1, 3)}
       ops.append([k, a])
     return {'cfg': cfg, 'entropy': rng.randrange(2**31), 'ops': ops}
 
